@@ -103,6 +103,9 @@ class NativeVM:
     def choose_int(self, v, lo, hi):
         return v
 
+    def pick(self, name, n):
+        return self._next('int', name)
+
     def register_helper(self, name, fn):
         setattr(self, name, fn)
 
@@ -116,8 +119,8 @@ def with_watchdog(fn, seconds=5.0, recursion_limit=None):
     in the code under test cannot swallow it).  Only valid in the main thread of the process."""
     old = signal.signal(signal.SIGALRM, _alarm)
     old_rl = sys.getrecursionlimit()
-    if recursion_limit:
-        sys.setrecursionlimit(recursion_limit)
+    # the code under test must see the recursion limit a real node runs with (the interpreter raised it for itself)
+    sys.setrecursionlimit(recursion_limit or (1000 + len(__import__('inspect').stack(0))))
     signal.setitimer(signal.ITIMER_REAL, seconds)
     try:
         return fn()
